@@ -24,8 +24,36 @@ sh("git checkout -- . && git clean -fdq -e SEED -e target")
 dsrc = open(demo).read()
 crate = "simple-mdns" if "simple_mdns" in dsrc else "simple-dns"
 tname = "seed_demo_%s" % k
-dpath = os.path.join(wt, crate, "tests", tname + ".rs")
+unit = bool(re.search(r"\b(crate|super)::", dsrc)) or ("mod seed_demo_" in meta_txt and "src/seed_demo_" in meta_txt)
+if unit and "simple-mdns/src" in meta_txt:
+    crate = "simple-mdns"
 features = " --all-features" if crate == "simple-mdns" else ""
+if unit:
+    # crate-private demonstration: a unit-test module src/seed_demo_<k>.rs plus one `#[cfg(test)] mod` line in lib.rs
+    dpath = os.path.join(wt, crate, "src", tname + ".rs")
+    libp = os.path.join(wt, crate, "src", "lib.rs")
+    modline = "\n#[cfg(test)] mod %s;\n" % tname
+    demo_cmd = "cargo test -p %s --offline%s --lib %s" % (crate, features, tname)
+else:
+    dpath = os.path.join(wt, crate, "tests", tname + ".rs")
+    demo_cmd = "cargo test -p %s --offline%s --test %s" % (crate, features, tname)
+
+
+def place_demo():
+    shutil.copy(demo, dpath)
+    if unit:
+        with open(libp, "a") as fh:
+            fh.write(modline)
+
+
+def remove_demo():
+    if os.path.exists(dpath):
+        os.unlink(dpath)
+    if unit:
+        t = open(libp).read()
+        open(libp, "w").write(t.replace(modline, ""))
+
+
 ran = []
 # 1. change applied: suite passes
 r = sh("git apply %s" % patch)
@@ -36,16 +64,18 @@ r = sh("cargo test --workspace --offline 2>&1 | grep -E '^test result|FAILED|err
 suite_ok = "FAILED" not in r.stdout and "error" not in r.stdout and "test result: ok" in r.stdout
 ran.append("with change: cargo test --workspace --offline -> %s" % ("all pass" if suite_ok else "FAIL: " + r.stdout[-300:]))
 # 2. demo fails with the change
-shutil.copy(demo, dpath)
-r = sh("timeout 600 cargo test -p %s --offline%s --test %s 2>&1 | tail -30" % (crate, features, tname))
-demo_fails = ("test result: FAILED" in r.stdout) or ("panicked" in r.stdout and "test result: ok" not in r.stdout)
-ran.append("with change: cargo test -p %s --test %s -> %s" % (crate, tname, "FAILS (expected)" if demo_fails else "passes?! " + r.stdout[-300:]))
+place_demo()
+r = sh("timeout 900 %s 2>&1 | tail -300" % demo_cmd)
+ran_some = re.search(r"running [1-9]\d* test", r.stdout) is not None
+demo_fails = ran_some and (("test result: FAILED" in r.stdout) or ("panicked" in r.stdout and "test result: ok" not in r.stdout))
+ran.append("with change: %s -> %s" % (demo_cmd, "FAILS (expected)" if demo_fails else "passes?! " + r.stdout[-300:]))
 # 3. demo passes without the change
+sh("git apply -R %s" % patch)
+r = sh("timeout 900 %s 2>&1 | tail -300" % demo_cmd)
+demo_passes = "test result: ok" in r.stdout and "FAILED" not in r.stdout and re.search(r"running [1-9]\d* test", r.stdout) is not None
+ran.append("clean tree: %s -> %s" % (demo_cmd, "passes (expected)" if demo_passes else "FAIL: " + r.stdout[-300:]))
+remove_demo()
 sh("git checkout -- .")
-r = sh("timeout 600 cargo test -p %s --offline%s --test %s 2>&1 | tail -30" % (crate, features, tname))
-demo_passes = "test result: ok" in r.stdout and "FAILED" not in r.stdout
-ran.append("clean tree: cargo test -p %s --test %s -> %s" % (crate, tname, "passes (expected)" if demo_passes else "FAIL: " + r.stdout[-300:]))
-os.unlink(dpath)
 print("\n".join(ran))
 if not (suite_ok and demo_fails and demo_passes):
     print("NOT KEPT")
@@ -56,8 +86,9 @@ shutil.copy(patch, os.path.join(out, "patch.diff"))
 shutil.copy(demo, os.path.join(out, "demo.rs"))
 files = re.findall(r"^\+\+\+ b/(.*)$", open(patch).read(), re.M)
 json.dump({"property": prop, "breaks": meta_txt.strip()[:1500], "files": files,
-           "demo_path": "%s/tests/%s.rs" % (crate, tname),
-           "demo_cmd": "cargo test -p %s --offline%s --test %s" % (crate, features, tname),
+           "demo_path": os.path.relpath(dpath, wt),
+           "demo_mod_line": ("#[cfg(test)] mod %s;  (appended to %s/src/lib.rs)" % (tname, crate)) if unit else None,
+           "demo_cmd": demo_cmd,
            "confirmed": ran, "source": "independent sub-agent given only the property text and a scratch worktree"},
           open(os.path.join(out, "meta.json"), "w"), indent=1)
 print("KEPT", out)
